@@ -83,7 +83,7 @@ def run_prop(prop, tier, seed):
     if rc != 0:
         broken.append(("correspondence", "harness build against /repo (tag verif)", first_error(o)))
         vh = None
-    rc, o, drv = core.build_driver()
+    rc, o, drv = core.build_driver(sorted({e["engine"] for e in spec.get("engines", [])}))
     if rc != 0:
         print("FRAMEWORK-ERROR: driver does not build:\n" + o[-3000:])
         return 3
@@ -231,9 +231,14 @@ def run_prop(prop, tier, seed):
 
 
 def setup():
+    """Build everything the claimed checks (runner/ready.txt) need, from clean, offline."""
     t0 = time.time()
+    ready = set(open(os.path.join(core.VERIF, "runner", "ready.txt")).read().split())
+    specs = {p: sp for p, sp in PROPS.items() if p in ready}
     core.extract_facts()
-    rc, o = core.lake_build(["Model", "Proofs", "Props", "Tie", "Audit", "drv"])
+    mods = sorted({m for p, sp in specs.items() for m in sp.get("props", ["Props." + p]) + sp.get("tie", [])})
+    engs = sorted({e["engine"] for sp in specs.values() for e in sp.get("engines", [])})
+    rc, o = core.lake_build(mods + ["Audit"] + ["drv_" + e for e in engs])
     print(o[-2000:])
     if rc != 0:
         return rc
@@ -242,7 +247,7 @@ def setup():
     if rc != 0:
         return rc
     seen = set()
-    for p, spec in PROPS.items():
+    for p, spec in specs.items():
         for name, pkg in spec.get("binaries", {}).items():
             if name in seen:
                 continue
@@ -251,7 +256,7 @@ def setup():
             if rc != 0:
                 print(o[-2000:])
                 return rc
-    print("setup done in %.0fs" % (time.time() - t0))
+    print("setup done in %.0fs (%d properties, %d Lean modules, %d drivers)" % (time.time() - t0, len(specs), len(mods), len(engs)))
     return 0
 
 
@@ -268,7 +273,7 @@ def replay(path):
     if rc != 0:
         print(o[-2000:])
         return 3
-    rc, o, drv = core.build_driver()
+    rc, o, drv = core.build_driver([doc["engine"]])
     work = os.path.join(core.WORK, "replay-%d" % os.getpid())
     os.makedirs(work, exist_ok=True)
     casefile = os.path.join(work, "case.json")
